@@ -43,6 +43,11 @@ def strategy(tier):
         prime=st.booleans(),
         recycle_after=st.lists(st.tuples(st.integers(0, n - 1), st.integers(0, n + 1),
                                          st.integers(0, 1000)), max_size=3),
+        # the same object has answered ppid()/parent() before; then the caller
+        # gets another parent (its parent exited: adopted by init or a
+        # subreaper), and is asked again
+        warm=st.booleans(),
+        reparent=st.one_of(st.none(), st.none(), st.integers(0, n + 1)),
     )))
 
 
@@ -163,7 +168,7 @@ def shape_labels(rows, me):
     return labels
 
 
-def check_table(rows, me, recycle=None, vanish=(), prime=False, recycle_after=()):
+def check_table(rows, me, recycle=None, vanish=(), prime=False, recycle_after=(), warm=False, reparent=None):
     import psutil
 
     k = build(rows)
@@ -182,6 +187,14 @@ def check_table(rows, me, recycle=None, vanish=(), prime=False, recycle_after=()
     with simk.installed(k):
         k.access_hook = guard
         p = psutil.Process(me)
+        if warm:
+            guard.base = len(k.log)
+            try:
+                p.ppid()
+                p.parent()
+            except psutil.Error:
+                pass
+            labels.add("asked-before")
         if prime:
             guard.base = len(k.log)
             list(psutil.process_iter())
@@ -198,6 +211,13 @@ def check_table(rows, me, recycle=None, vanish=(), prime=False, recycle_after=()
             direct, lower, upper, par, chain, cyclic = model(rows, me)
             labels |= shape_labels(rows, me)
             labels.add("others-recycled-after-priming" if prime else "others-recycled")
+        if reparent is not None and reparent != by[me][1]:
+            k.procs[me].ppid = reparent
+            rows = [(pid, reparent if pid == me else pp, s_, z_) for pid, pp, s_, z_ in rows]
+            by = {r[0]: r for r in rows}
+            direct, lower, upper, par, chain, cyclic = model(rows, me)
+            labels |= shape_labels(rows, me)
+            labels.add("caller-reparented-after-first-answer" if warm else "caller-reparented")
         if recycle:
             old = k.procs[me]
             z = recycle == "later-zombie"
@@ -326,8 +346,12 @@ def run_case(case):
         seen_idx.add(idx)
         pp = pids[pj] if pj < n else (99999 if pj == n else 0)
         rec.append((idx, (rows[idx][0], pp, start)))
+    rp = case.get("reparent")
+    if rp is not None:
+        rp = pids[rp] if rp < n else (99999 if rp == n else 0)
     labels = check_table(rows, me, case["recycle_caller"], vanish if not rec else (),
-                         prime=case.get("prime", False), recycle_after=rec)
+                         prime=case.get("prime", False), recycle_after=rec,
+                         warm=case.get("warm", False), reparent=rp)
     key = labels & {"self-loop", "unlisted-parent", "older-child", "cycle2", "cycle3",
                     "cycle4", "caller-recycled", "vanish-during-walk", "start-ties"}
     nontrivial = None
